@@ -24,6 +24,10 @@ class NotSerializable:
     pass
 
 
+class NoFromJson(SubclassJSONSerializer):
+    """a serialisable class that does not say how it is created from json"""
+
+
 @dataclass
 class Node0(SubclassJSONSerializer):
     name: str = ""
@@ -76,6 +80,20 @@ class IterNode(Node1):
 
     def __iter__(self):
         return iter((self.name, self.payload))
+
+
+@dataclass
+class StaticNode(Node0):
+    """says how it is created from json with a static method instead of a class method"""
+
+    @staticmethod
+    def _from_json(data, **kwargs):
+        return StaticNode(name=data["name"], payload=from_json(data["payload"]), friends=from_json(data["friends"]))
+
+
+class NoneFromJson(SubclassJSONSerializer):
+    """a serialisable class whose _from_json is not callable"""
+    _from_json = None
 
 
 def _ser_deque(obj):
